@@ -5,13 +5,24 @@ package astits
 
 type refW struct {
 	b []byte
-	n int // bits written
+	m []byte // care mask: 0 bits are reserved positions whose value the reference does not prescribe
+	n int    // bits written
 }
 
-func (w *refW) put(nbits int, v uint64) {
+func (w *refW) put(nbits int, v uint64) { w.putm(nbits, v, true) }
+
+// reserved writes nbits reserved bits (as ones) and marks them "don't care"
+func (w *refW) reserved(nbits int) { w.putm(nbits, ^uint64(0), false) }
+
+func (w *refW) putm(nbits int, v uint64, care bool) {
 	if w.n%8 == 0 && nbits%8 == 0 {
 		for k := nbits - 8; k >= 0; k -= 8 {
 			w.b = append(w.b, byte(v>>uint(k)))
+			if care {
+				w.m = append(w.m, 0xff)
+			} else {
+				w.m = append(w.m, 0)
+			}
 		}
 		w.n += nbits
 		return
@@ -19,9 +30,13 @@ func (w *refW) put(nbits int, v uint64) {
 	for i := nbits - 1; i >= 0; i-- {
 		if w.n%8 == 0 {
 			w.b = append(w.b, 0)
+			w.m = append(w.m, 0)
 		}
 		bit := byte(v>>uint(i)) & 1
 		w.b[len(w.b)-1] |= bit << uint(7-w.n%8)
+		if care {
+			w.m[len(w.m)-1] |= 1 << uint(7-w.n%8)
+		}
 		w.n++
 	}
 }
@@ -39,6 +54,9 @@ func (w *refW) bytes(p []byte) {
 		panic("refW.bytes: unaligned")
 	}
 	w.b = append(w.b, p...)
+	for range p {
+		w.m = append(w.m, 0xff)
+	}
 	w.n += 8 * len(p)
 }
 
@@ -68,4 +86,16 @@ func b2i(b bool) int {
 		return 1
 	}
 	return 0
+}
+
+// vBytesEqMasked compares under a care mask
+func vBytesEqMasked(got, want, mask []byte) bool {
+	if len(got) != len(want) {
+		return false
+	}
+	eq := true
+	for i := range got {
+		eq = eq && (got[i]^want[i])&mask[i] == 0
+	}
+	return eq
 }
